@@ -57,6 +57,14 @@ def templates(pyver, tier, rng=None):
             add("args-%d" % n, "def f(" + ", ".join("a%d" % i for i in range(min(n, 255))) + "):\n    return a0\n")
     # one case beyond 65535 table entries / jump distance even in the quick tier (three-unit operands)
     add("huge-65600-names-loop", "while c:\n    x = [" + ", ".join("n%d" % i for i in range(65600)) + "]\ny = [n65599, n256, n65536]\n")
+    # every operand table past one byte together with jumps whose operands depend on the instruction sizes: cells and free
+    # variables (free-variable operands are offset by the number of cells), locals, names, constants
+    for ncell in (255, 256, 300):
+        body = "def outer(fv, fw):\n  def mid():\n" + "".join("    v%d = %d\n" % (i, i) for i in range(ncell))
+        body += "    def inner():\n      return (" + ", ".join("v%d" % i for i in range(ncell)) + ")\n"
+        body += "    if fv:\n      x = fv\n    else:\n      x = fw\n    while x:\n      x -= fv\n      if x > fw: continue\n    return inner\n  return mid\n"
+        add("cells-%d-free-jumps" % ncell, body)
+    add("locals-300-jumps", "def f(a):\n" + "".join("  l%d = a\n" % i for i in range(300)) + "  while l299:\n    if l298: l299 = l0\n    else: l299 = l1\n  return l299\n")
     add("names-attr-chain", "x = " + ".".join("a%d" % i for i in range(300)) + "\n")
 
     # ---- jumps over bodies: forward (if / for) and backward (while), width classes
@@ -249,3 +257,23 @@ def opcode_zoo(pyver):
         out.append(("opcode-zoo-match", "def m(x):\n    match x:\n        case [a, b, c, d, *e] if a:\n            return a, b, c, d, e\n"
                     "        case {'k': v, 'l': w, **r}:\n            return v, w, r\n        case P(a, b, c=d):\n            return a\n", "exec", 0))
     return out
+
+
+# Function-rich programs used as bases for the AST identifier/text rewriting (W4b); valid on 3.7 (no positional-only syntax).
+ASTNAME_BASES = [
+    "def f(a, b=1, *c, d, e=2, **g):\n    'doc of f'\n    x = a\n    return (x, b, c, d, e, g)\n"
+    "def h(*only):\n    \"\"\"star only\"\"\"\n    return only\n"
+    "def k(**kw):\n    return kw\n"
+    "def m(file, name='n', *, key=None):\n    'uses names'\n    return [file for name in key or ()]\n",
+    "class C:\n    'class doc'\n    attr = 'text'\n    def meth(self, value, *rest, flag=False, **more):\n        'method doc'\n"
+    "        local = value\n        def inner(p, q=local):\n            'inner doc'\n            nonlocal local\n            local = p\n            return q\n"
+    "        return inner\n"
+    "    async def co(self, x, *, y):\n        'coroutine doc'\n        return x\n"
+    "    def gen(self, n):\n        'generator doc'\n        for i in range(n):\n            yield i\n",
+    "glob = 'g'\ndef outer(arg1, arg2='d'):\n    'outer'\n    global glob\n    glob = arg1\n    lam = lambda z, w=arg2, *va, kwo='k', **vk: (z, w, va, kwo, vk)\n"
+    "    try:\n        pass\n    except Exception as err:\n        return err\n    return lam(arg1, kwo=arg2)\n"
+    "outer(1, arg2='2')\n",
+    "def first_const_is_name_like(p):\n    return 'p'\n"
+    "def doc_only():\n    'only a docstring'\n"
+    "def strs(s='default text', t=b'bytes'):\n    'd'\n    return s + 'tail', t, \"it's\", 'say \"x\"'\n",
+]
